@@ -20,6 +20,10 @@ CLAIMED = {
    text="Theorem C10_logic_sound: for every pair count 0..127, both operations and every assignment of accumulators, product wires and truncation helpers, satisfaction of the emitted rows forces the returned witness to hold (a mod 2^(2P)) op (b mod 2^(2P)); built from the 16-case table of the fifth logic identity (C10_logic_table, a finite vm_compute sweep lifted by forallb_forall), an induction along the quad rows (C10_logic_rows_sound, digit-step lemmas for land/lxor) and the canonical truncation split of C11. Every pair count x op is compared with the real Composer on every run (layout, witness values, returned value), the logic widget's three coded forms with the model formula, and forged accumulator / product / output / a+r assignments are decided on the real layout by the proved evaluator.",
    technique="Coq proof (finite table + induction over quads + truncation split) + exhaustive differential correspondence + L1 widget tie + evaluator-decided templates",
    design="5/C10"),
+ "C07": dict(
+   text="Theorems C07_*: for every modelled component (witness/gate primitives, evaluated output, selection, range check of any width, decomposition, truncation, logic) the emitted rows (selectors, wiring, public-input rows), the number of allocated witnesses and the returned witness indices are functions of the call's static parameters and of the shape of the state only; shape independence is closed under sequencing (C07_sequence). The model is tied to the real Composer on every run; totality (no panic for arbitrary field values, debug assertions and overflow checks on) and value-independence of the layout are checked on the real code for every component x width x value class.",
+   technique="Coq proof (erasure of values from the layout functions) + exhaustive-width differential correspondence + panic/layout sweep on a checked build",
+   design="5/C07"),
  "C08": dict(
    text="Machine-checked theorems (Props/C08.v) state, for every selector tuple, wiring and assignment, the exact relation each arithmetic/equality/boolean/selection component enforces, uniqueness of returned witnesses, completeness of honest values and locality of arithmetic blocks inside any satisfied system; the Gallina composer model they are about is compared on every run with the real Composer (gates, public-input rows, witness values) on generated programs, and the real snapshots are probed with perturbed assignments evaluated by the proved-sound row evaluator.",
    technique="Coq proof over a Gallina model of the composer + differential correspondence (L3 snapshot tie) + exactness probe on real layouts",
